@@ -1,7 +1,8 @@
 package staking
 
 // C07 (staking actions taking effect) — the four value-moving take-effect handlers
-// (teDeposit, teWithdraw, teDelegationAdd, teDelegationSub; protocol version 5) conserve
+// (teDeposit, teWithdraw, teDelegationAdd, teDelegationSub; protocol version 5) and the two
+// that must move nothing (teUpdate, teChangeStatus) conserve
 // tokens: what was detained at submission joins the stake or is returned, what leaves the
 // stake is exactly what the new withdraw record promises; and every validator's total stays
 // the sum of its own and its delegators' tokens.
@@ -30,6 +31,16 @@ func zzC07tDecode(b []byte, out interface{}) error {
 		(*o).MainAddress, (*o).Value = zzValAddr(1), new(big.Int).Set(zzC07tValue)
 	case **TxValidatorWithdraw:
 		(*o).MainAddress, (*o).Value, (*o).Recipient = zzValAddr(1), new(big.Int).Set(zzC07tValue), common.Address{0x11}
+	case *TxUpdateValidator:
+		*o = TxUpdateValidator{MainAddress: zzValAddr(1), Name: "renamed", OperatorAddress: common.Address{0x13}, CommissionRate: zzverif.U16("upd.commission"),
+			RiskObligation: zzverif.U16("upd.risk"), AcceptDelegation: zzverif.U16("upd.accept")}
+		if zzverif.Bool("upd.keepCoinbase") {
+			o.Coinbase = common.Address{}
+		} else {
+			o.Coinbase = common.Address{0x14}
+		}
+	case **TxValidatorChangeStatus:
+		(*o).MainAddress, (*o).Status = zzValAddr(1), zzverif.U8("newStatus")&1
 	}
 	return nil
 }
@@ -70,13 +81,14 @@ func zzH_C07_take_effect() {
 	cfg.MaxStakes = map[params.ValidatorRole]uint64{1: maxStake, 2: maxStake, 3: maxStake}
 	zzC07tValue = zzverif.Big("action.value", 80)
 	zzverif.Assume(zzC07tValue.Sign() > 0)
-	action := zzverif.Choose("action", 4)
+	action := zzverif.Choose("action", 6)
 	from := common.Address{0x11} // operator of validator 1
-	if action >= 2 {
+	if action == 2 || action == 3 {
 		from = zzC07Dlg
 	}
 	msg := types.NewMessage(from, &params.StakingModuleAddress, 5, new(big.Int), 100000, big.NewInt(1), nil, true)
-	ctx := &messageContext{Msg: msg, State: s, Cfg: cfg, Header: &types.Header{Number: big.NewInt(100)}, Receipt: &types.Receipt{}}
+	ctx := &messageContext{Msg: msg, State: s, Cfg: cfg, Header: &types.Header{Number: big.NewInt(100), CurrVersion: params.YouV5}, Receipt: &types.Receipt{}}
+	v1Before := s.GetValidatorByMainAddr(zzValAddr(1)).DeepCopy()
 	before := zzC07tHeld(s)
 	detained := new(big.Int)
 	var err error
@@ -95,7 +107,21 @@ func zzH_C07_take_effect() {
 	case 3:
 		err = teDelegationSub(ctx, []byte{1})
 		zzverif.Reach("delegation-sub")
+	case 4:
+		err = teUpdate(ctx, []byte{1})
+		v := s.GetValidatorByMainAddr(zzValAddr(1))
+		zzverif.Assert(v != nil && v.Token.Cmp(v1Before.Token) == 0 && v.Stake.Cmp(v1Before.Stake) == 0 && v.SelfToken.Cmp(v1Before.SelfToken) == 0 && v.Status == v1Before.Status && v.Role == v1Before.Role && len(v.Delegations) == len(v1Before.Delegations),
+			"an update of name / operator / coinbase / rates moves no tokens, stake, status or delegation")
+		zzverif.Reach("update")
+	case 5:
+		err = teChangeStatus(ctx, []byte{1})
+		v := s.GetValidatorByMainAddr(zzValAddr(1))
+		zzverif.Assert(v != nil && v.Token.Cmp(v1Before.Token) == 0 && v.Stake.Cmp(v1Before.Stake) == 0 && v.SelfToken.Cmp(v1Before.SelfToken) == 0 && len(v.Delegations) == len(v1Before.Delegations),
+			"a status change moves no tokens, stake or delegation")
+		zzverif.Assert(v.Status == v1Before.Status || v.Status == params.ValidatorOffline || v.Stake.Uint64() >= minStake, "nobody goes online below the role's minimum stake")
+		zzverif.Reach("change-status")
 	}
+	zzverif.Assert(zzStatsFollow(s, 2), "the validator statistics are the recomputation from the records after the action took effect")
 	zzverif.Assert(err == nil, "a take-effect handler does not fail")
 	zzverif.Assert(zzC07tHeld(s).Cmp(new(big.Int).Add(before, detained)) == 0, "stake, withdraw queue and balances together change by exactly what was detained at submission")
 	for i := 1; i <= 2; i++ {
